@@ -802,7 +802,7 @@ def refused_files(ctx):
 
 
 def witness_failed_loads(ctx):
-    """The two inputs of findings F16 / F17 (fixed), on every run:
+    """The inputs of findings F16 / F17 / F18 / F19 / F20 (fixed), on every run:
     F16  `declare('q'); load(pickle{vars: x:2, y:0, w:1}, levels=True)` raised `ValueError` half-way
          and left `vars={'q':0,'x':2}` — a gap, the next `var('x')` raised;
     F17  `autoref.BDD().load(json with a dangling child)` raised `KeyError` and left the `incref`
@@ -877,14 +877,81 @@ def witness_failed_loads(ctx):
         ctx.violation('F17 witness: failed load_json', dict(
             problems=bad[:4], got=ans, tags=dict(call='load-rejected', what='F17')))
     ctx.case(('witness', 'F17'))
-    ctx.add_session(s, SECTIONS_L3, 'C12/C17 witnesses F16 F17')
+    # F18 / F19 / F20 (fixed): the three defects of `load_json` on ill-formed content
+    #  F18  a node line numbered as the terminal (`"1": [0, "F", "T"]`, roots `[1]`) was accepted and
+    #       left the node built for the line with a reference nobody held (refused now: `k <= 1`);
+    #       `json:id1`, alone and followed by a line that fails anyway
+    #  F19  `json:unrooted:load_order=1`: a node line that is neither a root nor a successor fails the
+    #       `ref < 3` assertion, which ran in the release loop OUTSIDE the `try:`: the rest of the
+    #       shelf leaked (`_ref == {1: 5, 2: 1, 3: 1}` with nothing held)
+    #  F20  `json:order:load_order=1`: node 3 at level 1 names node 2 at level 0 as its successor; the
+    #       raw `find_or_add` stored the ill-ordered node, `assert_consistent()` raised with the node
+    #       still in the tables, and the next explicit `reorder` corrupted the manager
+    def fixed_json(mid, what, text, lo, names=(), hold=False):
+        s.new(mid, list(names))
+        f_ = None
+        if hold:
+            x = s.val(s.op(mid, 'var', names[0]))
+            y = s.val(s.op(mid, 'var', names[1]))
+            f_ = s.val(s.op(mid, 'apply', 'and', x, y))
+            s.incref(mid, f_)
+        fh, path = _new_file(s.impl, '.json')
+        with open(path, 'w') as f:
+            f.write(text)
+        fields = json_fields(read_json(path), False)
+        b = s.mgr(mid)
+        tt_before = TT(b, sorted(set(b.vars) | {'x', 'y'})).of(f_) if f_ else None
+        ans = s.op(mid, 'jload', fh, f'w{mid}', int(lo), *fields)
+        ctx.evaluations += 1
+        b = s.mgr(mid)
+        bad = order_views_ok(b) + check_invariants(b, dict(s.ledger.get(mid, {})))
+        if not ans.startswith('err'):
+            bad.append(f'accepted: {ans}')
+        if lo and b.configure()['reordering']:
+            bad.append('a failed load_order=True left dynamic reordering enabled')
+        if f_:
+            # the next explicit reordering and the held function
+            a3 = s.op(mid, 'reorder', 'x=1,y=0')
+            if not a3.startswith('ok'):
+                bad.append(f'reorder after the failed load: {a3}')
+            b = s.mgr(mid)
+            bad += order_views_ok(b) + check_invariants(b, dict(s.ledger.get(mid, {})))
+            if TT(b, sorted(set(b.vars) | {'x', 'y'})).of(f_) != tt_before:
+                bad.append('the held function changed')
+        s.op(mid, 'gc')
+        b = s.mgr(mid)
+        keep = reachable(b, [u for u, c in s.ledger.get(mid, {}).items() if c > 0]) | {1}
+        if set(b._succ) != keep:
+            bad.append(f'after a collection: nodes {sorted(b._succ)}, expected {sorted(keep)}')
+        s.state(mid)
+        if bad:
+            ctx.violation(f'{what} witness: failed load_json', dict(
+                problems=bad[:4], got=ans, tags=dict(call='load-rejected', what=what)))
+        ctx.case(('witness', what, lo, bool(names)))
+
+    head = '{\n"level_of_var": {"x": 0, "y": 1},\n'
+    id1 = head + '"roots": [1],\n"1": [0, "F", "T"]\n}\n'
+    id1_then = head + '"roots": [3],\n"1": [0, "F", "T"],\n"3": [0, "F", 7]\n}\n'
+    unrooted = head + '"roots": [2],\n"3": [1, "F", "T"],\n"2": [0, "F", "T"]\n}\n'
+    illord = head + '"roots": [3],\n"2": [0, "F", "T"],\n"3": [1, "F", 2]\n}\n'
+    mid = 20
+    for lo in (False, True):
+        fixed_json(mid, 'F18', id1, lo); mid += 1
+        fixed_json(mid, 'F18', id1_then, lo); mid += 1
+    fixed_json(mid, 'F19', unrooted, True); mid += 1
+    fixed_json(mid, 'F19', unrooted, True, names=('y', 'x')); mid += 1
+    fixed_json(mid, 'F20', illord, True); mid += 1
+    fixed_json(mid, 'F20', illord, True, names=('x', 'y'), hold=True); mid += 1
+    ctx.add_session(s, SECTIONS_L3, 'C12/C17 witnesses F16 F17 F18 F19 F20')
     s.close()
 
 
 def rejected_content(ctx):
     """C17 `load_rejected`: a readable file whose content is ill-formed (a child that is not in
-    the file, a root that is not in the file, a level outside the file's range) makes the loader
-    raise half-way.  Whatever it did before raising: the structural invariant holds, every node
+    the file, a root that is not in the file, a level outside the file's range; for JSON also: a
+    node not above its successor, a node line that is neither root nor successor, a node line
+    numbered as the terminal — each with `load_order` False / True and with dynamic reordering
+    enabled and armed in the receiving manager) makes the loader raise half-way.  Whatever it did before raising: the structural invariant holds, every node
     that was in the receiving manager is still there with the same triple, every held function
     keeps its truth table, declared variables keep their level, the reordering switch is what it
     was.  The model's outcome (error class, final state, counts) is compared line by line."""
@@ -958,6 +1025,31 @@ def rejected_content(ctx):
             k = rng.randrange(len(nodes))
             n = nodes[k]
             nodes[k] = (n[0], len(lov) + 3, n[2], n[3])
+        elif kind == 'order':
+            # a parent at a level that is not above the level of one of its successors (F20)
+            lvl_of = {n[0]: n[1] for n in nodes}
+            cand = [i for i, n in enumerate(nodes) if any(isinstance(x, int) for x in (n[2], n[3]))]
+            if not cand:
+                return None
+            i = rng.choice(cand)
+            n = nodes[i]
+            ch = rng.choice([abs(x) for x in (n[2], n[3]) if isinstance(x, int)])
+            nodes[i] = (n[0], rng.randrange(lvl_of[ch], len(lov)), n[2], n[3])
+        elif kind == 'unrooted':
+            # a node line that is neither a root nor a successor of another line (F19)
+            k = max([n[0] for n in nodes] + [1]) + 1 + rng.randrange(3)
+            nodes.insert(rng.randrange(len(nodes) + 1), (k, rng.randrange(len(lov)), 'F', 'T'))
+        elif kind in ('id1', 'id1+child'):
+            # a node line numbered as the terminal (F18), alone or before a line that fails anyway
+            if kind == 'id1+child':
+                ch = set()
+                for k, lvl, lo, hi in nodes:
+                    ch |= {abs(x) for x in (lo, hi) if isinstance(x, int)}
+                if not ch:
+                    return None
+                gone = rng.choice(sorted(ch))
+                nodes = [n for n in nodes if n[0] != gone]
+            nodes.insert(rng.randrange(len(nodes) + 1), (1, rng.randrange(len(lov)), 'F', 'T'))
         fh, path = _new_file(s.impl, '.json')
         with open(path, 'w') as f:
             f.write('{\n')
@@ -990,48 +1082,79 @@ def rejected_content(ctx):
                 s.incref(mid, r)
         return mid
 
-    def run(label, mid, do):
+    def run(label, mid, do, lo=False, dyn=False, must_reject=True, handle=None):
+        """`lo`: `load_order=True` (the explicit `reorder(order)` of the line `level_of_var` moves
+        levels and triples; the switch ends OFF after a failure, ON after a success);
+        `dyn`: dynamic reordering enabled in the target with the request armed (sifting may run
+        inside `var` / `ite` of `_make_node` before the failure; the switch stays enabled)."""
         b = s.mgr(mid)
         old_succ = dict(b._succ)
         old_vars = dict(b.vars)
         old_conf = b.configure()
+        old_last = b._last_len
         univ = sorted(set(old_vars) | set(names))
         held = [u for u, c in s.ledger.get(mid, {}).items() if c > 0]
         tt0 = TT(b, univ)
         old_tt = {u: tt0.of(u) for u in held}
         ans = do()
+        if dyn:
+            s.op(mid, 'fire_off')
+            if not lo and s.mgr(mid)._last_len != old_last:
+                ctx.count('rejected:json:sifted-inside-the-load:' + ('raised' if ans.startswith('err') else 'returned'))
         ctx.evaluations += 1
         b = s.mgr(mid)
         problems = []
-        if not ans.startswith('err'):
+        rejected = ans.startswith('err')
+        if not rejected and must_reject:
             problems.append(f'ill-formed content accepted: {ans}')
         # order views (bijection onto 0..n-1, the four views agree) and EXACT counts for the
-        # caller's ledger: a failed load holds nothing
-        problems += order_views_ok(b) + check_invariants(b, dict(s.ledger.get(mid, {})))
-        for u, t in old_succ.items():
-            if u != 1 and b._succ.get(u) != t:
-                problems.append(f'node {u} was {t}, is {b._succ.get(u)}')
-        for v, l in old_vars.items():
-            if b.vars.get(v) != l:
-                problems.append(f'variable {v} was at level {l}, is at {b.vars.get(v)}')
-        if b.configure() != old_conf:
+        # caller's ledger: a failed load holds nothing; an accepted one holds its roots
+        ledger = dict(s.ledger.get(mid, {}))
+        got_list = []
+        if not rejected:
+            got = roots_parse(ans[3:])
+            got_list = list(got.values()) if isinstance(got, dict) else list(got or [])
+            for u in got_list:
+                ledger[abs(u)] = ledger.get(abs(u), 0) + 1
+        problems += order_views_ok(b) + check_invariants(b, ledger)
+        moved = lo or (dyn and not lo)
+        if not moved:
+            for u, t in old_succ.items():
+                if u != 1 and b._succ.get(u) != t:
+                    problems.append(f'node {u} was {t}, is {b._succ.get(u)}')
+            for v, l in old_vars.items():
+                if b.vars.get(v) != l:
+                    problems.append(f'variable {v} was at level {l}, is at {b.vars.get(v)}')
+        elif not set(old_vars) <= set(b.vars):
+            problems.append(f'declared variables lost: {sorted(set(old_vars) - set(b.vars))}')
+        if lo:
+            # `configure(reordering=False)` first; `configure(reordering=<dict>)` only on success
+            if b.configure()['reordering'] != (not rejected):
+                problems.append(f'the reordering switch is {b.configure()["reordering"]} after a '
+                                f'{"refused" if rejected else "successful"} load_order=True')
+        elif b.configure() != old_conf:
             problems.append('the reordering switch changed')
-        tt1 = TT(b, sorted(set(b.vars) | set(names)))
         tt0b = TT(b, univ) if set(b.vars) <= set(univ) else None
         if tt0b is not None:
             for u in held:
-                if tt0b.of(u) != old_tt[u]:
+                if abs(u) not in b._succ:
+                    problems.append(f'held node {u} is gone')
+                elif tt0b.of(u) != old_tt[u]:
                     problems.append(f'held node {u} denotes another function')
-        del tt1
         for u in held:
             if b._ref.get(u, 0) < 1:
                 problems.append(f'held node {u} lost its reference')
+        if not rejected and handle is not None:
+            # the returned `Function`s die: the caller's ledger again, and a collection
+            s.op(mid, 'drop', handle, ans[3:])
+            b = s.mgr(mid)
+            problems += check_invariants(b, dict(s.ledger.get(mid, {})))
         if problems:
             ctx.violation(f'rejected load ({label})', dict(problems=problems[:4], got=ans,
                           lines=list(s.lines[-3:]), tags=dict(call='load-rejected', what=label)))
         s.state(mid)
         ctx.case(('rejected', label))
-        ctx.count(f'rejected:{label}')
+        ctx.count(f'rejected:{label}{"" if rejected else ":accepted"}')
 
     nh = [0]
     for kind in ('child', 'root', 'level'):
@@ -1053,6 +1176,31 @@ def rejected_content(ctx):
             nh[0] += 1
             hh = f'r{nh[0]}'
             run(f'json:{kind}', mid, lambda: s.op(mid, 'jload', fh, hh, 0, *fields))
+    # JSON, every kind of ill-formed content x load_order x dynamic reordering enabled (armed)
+    jkinds = ['child', 'root', 'level', 'order', 'unrooted', 'id1', 'id1+child']
+    for kind in jkinds:
+        c = corrupt_json(kind)
+        if c is None:
+            continue
+        fh, fields = c
+        for lo in (0, 1):
+            for dyn in (False, True):
+                if kind in ('child', 'root', 'level') and not lo and not dyn:
+                    continue        # done above
+                if ctx.tier == 'quick' and rng.random() < 0.4:
+                    continue
+                mid = target()
+                if dyn:
+                    s.op(mid, 'configure', 1)
+                    s.op(mid, 'fire_in', rng.randint(1, 4))
+                nh[0] += 1
+                hh = f'r{nh[0]}'
+                # `order` / `unrooted` are accepted by `load_order=False` (built with var / ite; only
+                # `ref < 2` is asserted); `unrooted` may pass `ref < 3` when its node is shared
+                must = kind in ('child', 'root', 'level', 'id1', 'id1+child') or (kind == 'order' and lo == 1)
+                run(f'json:{kind}:load_order={lo}{":dyn" if dyn else ""}', mid,
+                    lambda: s.op(mid, 'jload', fh, hh, lo, *fields),
+                    lo=bool(lo), dyn=dyn, must_reject=must, handle=hh)
     ctx.add_session(s, SECTIONS_L3, 'C12/C17 rejected content')
     s.close()
 
